@@ -415,7 +415,7 @@ fn run_body(project: &ProjectRef, plan: &Plan, counters: &mut Counters, install_
 // ---------------------------------------------------------------------------------------------
 
 #[cfg(not(feature = "shuttle"))]
-pub fn execute(project: &ProjectRef, plan: &Plan, counters: &mut Counters) -> RunOut {
+fn execute_inproc(project: &ProjectRef, plan: &Plan, counters: &mut Counters) -> RunOut {
     let plan2 = plan.clone();
     run_body(project, plan, counters, move || {
         if plan2.workers > 1 {
@@ -487,10 +487,12 @@ mod pool {
     }
 }
 
-/// salsa keeps process-global statics built on its (here: shuttle's) sync primitives, so two
-/// shuttle executions must never run concurrently in one process: every level-2 run is executed
-/// in a child process (`simdb c12-exec`), which also gives each run a pristine process state.
-#[cfg(feature = "shuttle")]
+/// Every run (both levels) is executed in a child process (`simdb c12-exec`): runs then share
+/// nothing, not even process-global state of the code under test (a `static` cache or lock in the
+/// compiler would otherwise couple simulations that the harness happens to run side by side, and
+/// such a coupling does not replay). For level 2 it is also a necessity: salsa keeps process-global
+/// statics built on its (there: shuttle's) sync primitives, so two shuttle executions must never
+/// run concurrently in one process.
 pub fn execute(project: &ProjectRef, plan: &Plan, counters: &mut Counters) -> RunOut {
     use std::io::Write;
     let me = std::env::current_exe().unwrap();
@@ -518,8 +520,7 @@ pub fn execute(project: &ProjectRef, plan: &Plan, counters: &mut Counters) -> Ru
     serde_json::from_value(v["c12-exec"].clone()).unwrap_or_else(|e| harness_error(&format!("c12-exec result: {e}")))
 }
 
-/// Child-process entry point: one shuttle execution, request on stdin, result on stdout.
-#[cfg(feature = "shuttle")]
+/// Child-process entry point: one execution, request on stdin, result on stdout.
 pub fn exec_child() -> i32 {
     let mut s = String::new();
     std::io::Read::read_to_string(&mut std::io::stdin(), &mut s).unwrap();
@@ -530,10 +531,6 @@ pub fn exec_child() -> i32 {
     let out = execute_inproc(&project, &plan, &mut c);
     println!("{}", json!({"c12-exec": out, "counters": c.0}));
     0
-}
-#[cfg(not(feature = "shuttle"))]
-pub fn exec_child() -> i32 {
-    harness_error("c12-exec exists only in the shuttle build")
 }
 
 #[cfg(feature = "shuttle")]
